@@ -375,7 +375,7 @@ def check_C19(ctx):
         cases[-len(COMBOS)]["seq"] = SEQ       # the plain case also executes ONE Prog under a sequence of option sets
     # a writer on which every write fails: results must not depend on which introspection options are on
     fcases = []
-    for i, p in enumerate(progs[:ctx.n(40, 400)] + progs[-8:]):
+    for i, p in enumerate(interp.drop_excluded(ctx, progs[:ctx.n(40, 400)] + progs[-8:])):
         for o in ("F", "Fs", "Fd", "Ft", "Fdts"):
             fcases.append(dict(id="fw%d/%s" % (i, o), src_hex=p.hex(), opts=o, name="input"))
     fres, fmiss, ferr = ctx.probe("interp", fcases, tag="failw")
